@@ -20,23 +20,25 @@ def opMethods : List OpMethod := [
     engineCalls := [("apply_X", true)], unrecognised := false },
   { name := "remote_apply_K", line := 137, noiseFirst := true, noiseCalls := 1,
     engineCalls := [("apply_K", true)], unrecognised := false },
-  { name := "remote_apply_Y", line := 145, noiseFirst := true, noiseCalls := 1,
+  { name := "remote_apply_S", line := 145, noiseFirst := true, noiseCalls := 1,
+    engineCalls := [("apply_S", true)], unrecognised := false },
+  { name := "remote_apply_Y", line := 153, noiseFirst := true, noiseCalls := 1,
     engineCalls := [("apply_Y", true)], unrecognised := false },
-  { name := "remote_apply_Z", line := 153, noiseFirst := true, noiseCalls := 1,
+  { name := "remote_apply_Z", line := 161, noiseFirst := true, noiseCalls := 1,
     engineCalls := [("apply_Z", true)], unrecognised := false },
-  { name := "remote_apply_H", line := 161, noiseFirst := true, noiseCalls := 1,
+  { name := "remote_apply_H", line := 169, noiseFirst := true, noiseCalls := 1,
     engineCalls := [("apply_H", true)], unrecognised := false },
-  { name := "remote_apply_T", line := 169, noiseFirst := true, noiseCalls := 1,
+  { name := "remote_apply_T", line := 177, noiseFirst := true, noiseCalls := 1,
     engineCalls := [("apply_T", true)], unrecognised := false },
-  { name := "remote_apply_rotation", line := 177, noiseFirst := true, noiseCalls := 1,
+  { name := "remote_apply_rotation", line := 185, noiseFirst := true, noiseCalls := 1,
     engineCalls := [("apply_rotation", true)], unrecognised := false },
-  { name := "remote_measure_inplace", line := 196, noiseFirst := true, noiseCalls := 1,
+  { name := "remote_measure_inplace", line := 204, noiseFirst := true, noiseCalls := 1,
     engineCalls := [("measure_qubit_inplace", true)], unrecognised := false },
-  { name := "remote_measure", line := 207, noiseFirst := true, noiseCalls := 1,
+  { name := "remote_measure", line := 215, noiseFirst := true, noiseCalls := 1,
     engineCalls := [("measure_qubit", true)], unrecognised := false },
-  { name := "remote_cnot_onto", line := 219, noiseFirst := true, noiseCalls := 1,
+  { name := "remote_cnot_onto", line := 227, noiseFirst := true, noiseCalls := 1,
     engineCalls := [("apply_CNOT", true)], unrecognised := false },
-  { name := "remote_cphase_onto", line := 231, noiseFirst := true, noiseCalls := 1,
+  { name := "remote_cphase_onto", line := 239, noiseFirst := false, noiseCalls := 1,
     engineCalls := [("apply_CPHASE", true)], unrecognised := false }
 ]
 
